@@ -534,6 +534,14 @@ func TestVerifC16(t *testing.T) {
 			vC16RunHist(k, last)
 			return
 		}
+		if last := c.l[len(c.l)-1]; (kind >= 3 && kind <= 6) && last.isList() && len(last.l) == 7 && last.l[0].isBytes() && string(last.l[0].b) == "prod" {
+			vC16RunProduced(k, last)
+			return
+		}
+		if kind == 32 && len(c.l) >= 6 {
+			vC16RunPlumbing(k, c)
+			return
+		}
 		if last := c.l[len(c.l)-1]; kind == 31 && last.isList() && len(last.l) == 9 && last.l[0].isBytes() && string(last.l[0].b) == "big" {
 			vC16RunBig(k, last)
 			return
@@ -566,7 +574,8 @@ func TestVerifC16(t *testing.T) {
 	vC16Crafted(k)
 	vC16Histories(k)
 	vC16Big(k)
-	n := k.N(3000, 30000)
+	vC16Producer(k)
+	n := k.N(3000, 20000)
 	for i := 0; i < n; i++ {
 		runOne(vC16GenStruct(k, k.rnd))
 	}
